@@ -60,17 +60,28 @@ def gen_scn(ctx, k, flavour):
     return sc.text(), {'threads': nt, 'nodes': nodes, 'mix': mix, 'normal': normal, 'calls': cnt, 'fi': fi}
 
 def seq_scan(wire, probing):
-    """per destination node 1,2,...,255,1,... in wire order; 0 only while numbering is off during connection probing; the
-    expectation restarts after a MSG_SYS_RESET on the wire. Returns ((kind, text) or None, number of 255->1 wraps)."""
+    """per destination node 1,2,...,255,1,... in wire order; 0 only while numbering is off during connection probing. After a MSG_SYS_RESET on
+    the wire every node's numbering restarts once: the library resets its tables 1.5 s after the reset message went out, messages that were
+    held for a node and are released in between still continue the old numbering; once the new enumeration has begun (MSG_NODETAB_GETALL to
+    the interface) nothing may continue it. Returns ((kind, text) or None, number of 255->1 wraps)."""
     expect = {}
-    RESET = model.C('MSG_SYS_RESET')
+    RESET, GETALL = model.C('MSG_SYS_RESET'), model.C('MSG_NODETAB_GETALL')
     wraps = 0
+    restarted = set()
+    reset_seen = enum_started = False
     for i, w in enumerate(wire):
         ad = tuple(w['addr'])
         if probing and w['seq'] == 0:
             continue                       # numbering switched off during connection probing
         probing = False
         exp = expect.get(ad, 1)
+        if reset_seen and ad not in restarted:
+            if w['seq'] == 1 and (exp != 1 or True):
+                restarted.add(ad)
+                exp = 1
+            elif enum_started and ad in expect:
+                prev = [x['seq'] for x in wire[max(0, i - 6):i + 3] if tuple(x['addr']) == ad]
+                return ('no-restart-after-reset', f'node {ad}: message #{i} type {w["type"]:#x} has seq {w["seq"]}: the numbering of before the system reset goes on after the new enumeration has begun (neighbourhood {prev})'), wraps
         if w['seq'] != exp:
             prev = [x['seq'] for x in wire[max(0, i - 6):i + 3] if tuple(x['addr']) == ad]
             kind = 'zero-outside-probing' if w['seq'] == 0 else 'not-consecutive'
@@ -79,7 +90,9 @@ def seq_scan(wire, probing):
             wraps += 1
         expect[ad] = model.seq_next(exp)
         if w['type'] == RESET:
-            expect = {}
+            reset_seen, enum_started, restarted = True, False, set()
+        elif reset_seen and w['type'] == GETALL and ad == (0, 0, 0):
+            enum_started = True
     return None, wraps
 
 def check_wire(ctx, r, meta):
